@@ -204,10 +204,10 @@ Section H.
                   (fun a Ha => parse_accept_nonneg_lemma (h_ae i) a Ha)) as Snd.
     simpl in Snd. rewrite <- S in Snd.
     assert (G : (str_eqb c s_gzip || str_eqb c s_zstd) = true).
-    { destruct K as [K|K]; subst c; vm_compute; reflexivity. }
+    { destruct K as [K|K]; rewrite K; reflexivity. }
     destruct Snd as [Snd | [Snd | [Snd1 Snd2]]].
     - destruct K as [K|K]; rewrite K in Snd; discriminate.
-    - destruct K as [K|K]; rewrite K in Snd; vm_compute in Snd; discriminate.
+    - destruct K as [K|K]; rewrite K in Snd; discriminate.
     - rewrite G, Snd2. apply str_in_In in Snd1. rewrite Snd1. reflexivity.
   Qed.
 
